@@ -385,6 +385,45 @@ def r6_sum(text, fn, log):
         text = text[:s] + new + text[mk.end():]
 
 
+
+# ------------------------------------------------------------------ R32: fold over a slice iterator is its defining loop
+_R32 = re.compile(r'\b(\w+)\.iter\(\)(\.enumerate\(\))?\.fold\(')
+
+
+def r32_fold(text, fn, log):
+    """`S.iter().fold(INIT, |acc, x| BODY)` is, by the definition of Iterator::fold (std: `let mut accum = init; while let
+    Some(x) = self.next() { accum = f(accum, x); } accum`) over slice::Iter (yields &S[0], &S[1], ... in order),
+    `{ let mut acc = INIT; for k_ in 0..S.len() { let x = &S[k_]; acc = BODY; } acc }`; with `.enumerate()` the closure
+    parameter is `(i, x)` and i is the position.  Verus supports neither fold nor enumerate (provided trait methods)."""
+    while True:
+        m = mask(text)
+        mk = _R32.search(m)
+        if not mk:
+            return text
+        op = mk.end() - 1
+        cl = match_close(m, op)
+        parts = split_top(m, op + 1, cl)
+        if len(parts) < 2:
+            raise RuleError('R32: fold arity in %s' % fn)
+        init = text[parts[0][0]:parts[0][1]].strip()
+        clo = text[parts[1][0]:cl].strip()      # the closure's own `|a, b|` holds a top-level comma
+        s_ = mk.group(1)
+        if mk.group(2):
+            mc = re.match(r'\|\s*(\w+)\s*,\s*\(\s*(\w+)\s*,\s*(\w+)\s*\)\s*\|\s*(.*)$', clo, re.S)
+            if not mc:
+                raise RuleError('R32: closure shape in %s: %r' % (fn, clo))
+            acc, i, x, body = mc.groups()
+            new = '({ let mut %s = %s; for %s in 0..%s.len() { let %s = &%s[%s]; %s = %s; } %s })' % (acc, init, i, s_, x, s_, i, acc, body, acc)
+        else:
+            mc = re.match(r'\|\s*(\w+)\s*,\s*(\w+)\s*\|\s*(.*)$', clo, re.S)
+            if not mc:
+                raise RuleError('R32: closure shape in %s: %r' % (fn, clo))
+            acc, x, body = mc.groups()
+            new = '({ let mut %s = %s; for k_ in 0..%s.len() { let %s = &%s[k_]; %s = %s; } %s })' % (acc, init, s_, x, s_, acc, body, acc)
+        log.add('R32', fn, text[mk.start():cl + 1], new)
+        text = text[:mk.start()] + new + text[cl + 1:]
+
+
 # ------------------------------------------------------------------ R7: vec! expansions
 def r7_vec(text, fn, log):
     while True:
@@ -420,8 +459,8 @@ def r7_vec(text, fn, log):
 
 # ------------------------------------------------------------------ R8/R9: paths and constants
 R9_CONSTS = [
-    (r'f64::EPSILON', 'c_epsilon()'), (r'f64::NAN', 'c_nan()'), (r'f64::INFINITY', 'c_infinity()'),
-    (r'f64::NEG_INFINITY', 'c_neg_infinity()'), (r'f64::MAX', 'c_f64_max()'), (r'f64::MIN', 'c_f64_min()'),
+    (r'f64::EPSILON', 'c_epsilon()'), (r'f64::NAN', 'c_nan()'), (r'f64::INFINITY', 'c_infinity()'), (r'f64::MAX\b', 'c_max()'), (r'f64::MIN\b(?!_)', 'c_min()'),
+    (r'f64::NEG_INFINITY', 'c_neg_infinity()'),
     (r'std::f64::consts::PI', 'c_pi()'), (r'std::f64::consts::E', 'c_e()'),
     (r'(?<![A-Za-z0-9_:])PI(?![A-Za-z0-9_])', 'c_pi()'),
     (r'(?<![A-Za-z0-9_:])FRAC_PI_2(?![A-Za-z0-9_])', 'c_frac_pi_2()'),
